@@ -41,5 +41,7 @@ def run(rep, tier, seed, replay):
     rep.assumptions = ["request sequences of the async protocols are modelled in spec/AsyncReads.tla and bound to the code by "
                        "validating every logged poll (capacity offered, bytes taken) against ThriftAsync",
                        "generated decode_async joins via the generated-code corpus (C02)"]
+    eof = gencheck.async_eof(rep, tier, seed)
     rep.cov.update(gencheck.add_tagged(rep, "C12", tier, seed))
+    rep.cov.update(eof)
     return "model_checking"
